@@ -307,8 +307,6 @@ Proof. vm_compute. reflexivity. Qed.
 Definition impl_constants := C18_constants gen_table gen_units_ok.
 Definition impl_pairwise_factors := C18_pairwise_factors gen_table gen_units_ok.
 Definition impl_chains_qualify := C18_builtin_chains_qualify gen_table gen_units_ok.
-Definition impl_sonar_scale := C18_sonar_scale gen_table gen_units_ok.
-Definition impl_sonar_native := C18_sonar_native gen_table gen_units_ok.
 Definition impl_same_unit := fun u x y =>
   C18_table_same_unit gen_links u x y (table_inverse_inverse gen_table gen_table_inverse).
 Definition impl_there_and_back := fun a b x y =>
@@ -317,9 +315,362 @@ Definition impl_composition := fun a b c x y z =>
   C18_table_composition gen_links a b c x y z (table_inverse_inverse gen_table gen_table_inverse).
 Definition impl_linear := fun a b x1 x2 c y1 y2 =>
   C18_table_linear gen_links a b x1 x2 c y1 y2 (table_inverse_linear gen_table gen_table_inverse).
-Definition impl_all := (impl_constants, impl_pairwise_factors, impl_chains_qualify, impl_sonar_scale,
-  impl_sonar_native, impl_same_unit, impl_there_and_back, impl_composition, impl_linear).
+Definition impl_all := (impl_constants, impl_pairwise_factors, impl_chains_qualify, impl_same_unit, impl_there_and_back, impl_composition, impl_linear).
 Print Assumptions impl_all.
+"""
+
+
+# --------------------------------------------------------------------------
+# regenerated sensor constants: the literals of xl_max_sonar_ez.py and
+# pressure_sensors.py, read from the SOURCE with ast.  Fail closed: anything
+# that is not of a recognised shape raises Unrecognised (the regen obligation is
+# then recorded as broken; nothing is guessed).  Expressions are evaluated
+# symbolically as quotients of polynomials with exact coefficients (float
+# literals read as the decimals written), so `x / 0.000147`, `x * (1 / 0.000147)`,
+# `250 * v / vcc - 25`, `(250 * v - 25 * vcc) / vcc` ... give the same constants.
+
+class Unrecognised(Exception):
+    pass
+
+
+SYMS = ("R", "M", "S", "P")     # raw reading, floored reading, supply voltage, known_pressure
+
+
+def _mono(**kw):
+    return tuple(kw.get(n, 0) for n in SYMS)
+
+
+class Rat:
+    """num / den, polynomials {exponent tuple: Fraction}"""
+
+    def __init__(self, num, den=None):
+        self.num = {k: v for k, v in num.items() if v != 0}
+        self.den = {_mono(): Fraction(1)} if den is None else {k: v for k, v in den.items() if v != 0}
+        if not self.den:
+            raise Unrecognised("division by a constant zero")
+
+    @staticmethod
+    def const(c):
+        return Rat({_mono(): Fraction(c)})
+
+    @staticmethod
+    def sym(name):
+        return Rat({_mono(**{name: 1}): Fraction(1)})
+
+    @staticmethod
+    def _pmul(a, b):
+        out = {}
+        for ka, va in a.items():
+            for kb, vb in b.items():
+                k = tuple(x + y for x, y in zip(ka, kb))
+                out[k] = out.get(k, 0) + va * vb
+        return out
+
+    @staticmethod
+    def _padd(a, b, sign=1):
+        out = dict(a)
+        for k, v in b.items():
+            out[k] = out.get(k, 0) + sign * v
+        return out
+
+    def add(self, o, sign=1):
+        if self.den == o.den:
+            return Rat(Rat._padd(self.num, o.num, sign), self.den)
+        return Rat(Rat._padd(Rat._pmul(self.num, o.den), Rat._pmul(o.num, self.den), sign),
+                   Rat._pmul(self.den, o.den))
+
+    def mul(self, o):
+        return Rat(Rat._pmul(self.num, o.num), Rat._pmul(self.den, o.den))
+
+    def div(self, o):
+        if not o.num:
+            raise Unrecognised("division by a constant zero")
+        return Rat(Rat._pmul(self.num, o.den), Rat._pmul(self.den, o.num))
+
+    def is_sym(self, name):
+        return self.num == {_mono(**{name: 1}): Fraction(1)} and self.den == {_mono(): Fraction(1)}
+
+    def as_const(self):
+        if set(self.num) <= {_mono()} and set(self.den) == {_mono()}:
+            return self.num.get(_mono(), Fraction(0)) / self.den[_mono()]
+        return None
+
+    def laurent(self):
+        """num / den as a Laurent polynomial; den must be a single term"""
+        if len(self.den) != 1:
+            raise Unrecognised("denominator is not a single term")
+        (kd, vd), = self.den.items()
+        return {tuple(x - y for x, y in zip(k, kd)): v / vd for k, v in self.num.items()}
+
+    def inverse(self):
+        return Rat(self.den, self.num) if self.num else None
+
+
+def _lit(node):
+    import ast
+    if isinstance(node, ast.Constant) and not isinstance(node.value, bool) and isinstance(node.value, (int, float)):
+        v = node.value
+        if isinstance(v, float):
+            if not math.isfinite(v):
+                raise Unrecognised("non-finite literal")
+            return Fraction(repr(v))
+        return Fraction(v)
+    return None
+
+
+def _is_self_attr(node, attr=None):
+    import ast
+    return (isinstance(node, ast.Attribute) and isinstance(node.value, ast.Name) and node.value.id == "self"
+            and (attr is None or node.attr == attr))
+
+
+class MethodEval:
+    """Symbolic run of one straight-line method body."""
+
+    def __init__(self, reading_method, params=(), consts=None):
+        self.reading_method = reading_method      # getPeriod / getVoltage / getAverageVoltage
+        self.env = dict(consts or {})             # module-level numeric constants
+        self.module_names = set(self.env)
+        self.params = dict(params)                # parameter name -> symbol
+        self.floor = None
+        self.supply_attr = None                   # ("Vn", "voltage_in")
+        self.stored = {}                          # self.<attr> = value
+        self.returned = None
+        self.convert = None                       # (source unit name, Rat)
+        self.except_value = None
+
+    def floored(self, val, c):
+        if not val.is_sym("R"):
+            raise Unrecognised("floor applied to something else than the raw reading")
+        if self.floor is not None:
+            raise Unrecognised("two floors in one method")
+        self.floor = c
+        return Rat.sym("M")
+
+    def expr(self, node):
+        import ast
+        c = _lit(node)
+        if c is not None:
+            return Rat.const(c)
+        if isinstance(node, ast.Name):
+            if node.id in self.env:
+                return self.env[node.id]
+            if node.id in self.params:
+                return Rat.sym(self.params[node.id])
+            raise Unrecognised("unknown name %s" % node.id)
+        if isinstance(node, ast.UnaryOp) and isinstance(node.op, (ast.USub, ast.UAdd)):
+            v = self.expr(node.operand)
+            return Rat.const(-1).mul(v) if isinstance(node.op, ast.USub) else v
+        if isinstance(node, ast.BinOp):
+            a, b = self.expr(node.left), self.expr(node.right)
+            if isinstance(node.op, ast.Add):
+                return a.add(b)
+            if isinstance(node.op, ast.Sub):
+                return a.add(b, -1)
+            if isinstance(node.op, ast.Mult):
+                return a.mul(b)
+            if isinstance(node.op, ast.Div):
+                return a.div(b)
+            raise Unrecognised("operator %s" % type(node.op).__name__)
+        if isinstance(node, ast.Call) and not node.keywords:
+            f = node.func
+            # self.<device>.<reading_method>()
+            if (isinstance(f, ast.Attribute) and f.attr == self.reading_method and not node.args
+                    and _is_self_attr(f.value)):
+                return Rat.sym("R")
+            if isinstance(f, ast.Name) and f.id == "max" and len(node.args) == 2:
+                a, b = self.expr(node.args[0]), self.expr(node.args[1])
+                if b.as_const() is not None and a.as_const() is None:
+                    return self.floored(a, b.as_const())
+                if a.as_const() is not None and b.as_const() is None:
+                    return self.floored(b, a.as_const())
+                raise Unrecognised("max() of unexpected arguments")
+            if (isinstance(f, ast.Name) and f.id == "getattr" and len(node.args) == 3
+                    and isinstance(node.args[0], ast.Name) and node.args[0].id == "self"
+                    and isinstance(node.args[1], ast.Constant) and isinstance(node.args[1].value, str)
+                    and _is_self_attr(node.args[2])):
+                attr = (node.args[1].value, node.args[2].attr)
+                if self.supply_attr not in (None, attr):
+                    raise Unrecognised("two different supply attributes")
+                self.supply_attr = attr
+                return Rat.sym("S")
+        raise Unrecognised("expression %s" % ast.dump(node)[:120])
+
+    def stmts(self, body, in_try=False):
+        import ast
+        for st in body:
+            if self.returned is not None or self.convert is not None:
+                raise Unrecognised("statement after return")
+            if isinstance(st, ast.Expr) and isinstance(st.value, ast.Constant) and isinstance(st.value.value, str):
+                continue                                            # docstring
+            if isinstance(st, ast.Assign) and len(st.targets) == 1 and isinstance(st.targets[0], ast.Name):
+                self.env[st.targets[0].id] = self.expr(st.value)
+                self.module_names.discard(st.targets[0].id)
+            elif isinstance(st, ast.Assign) and len(st.targets) == 1 and _is_self_attr(st.targets[0]):
+                self.stored[st.targets[0].attr] = self.expr(st.value)
+            elif (isinstance(st, ast.If) and not st.orelse and len(st.body) == 1
+                  and isinstance(st.test, ast.Compare) and len(st.test.ops) == 1
+                  and isinstance(st.test.ops[0], (ast.Lt, ast.LtE))
+                  and isinstance(st.test.left, ast.Name) and isinstance(st.body[0], ast.Assign)
+                  and len(st.body[0].targets) == 1 and isinstance(st.body[0].targets[0], ast.Name)
+                  and st.body[0].targets[0].id == st.test.left.id and st.test.left.id in self.env
+                  and st.test.left.id not in self.module_names):
+                # if v < c: v = c      ==  v = max(v, c)
+                c1 = self.expr(st.test.comparators[0]).as_const()
+                c2 = self.expr(st.body[0].value).as_const()
+                if c1 is None or c1 != c2:
+                    raise Unrecognised("if-floor with two different constants")
+                self.env[st.test.left.id] = self.floored(self.env[st.test.left.id], c1)
+            elif isinstance(st, ast.Return) and st.value is not None:
+                v = st.value
+                if (isinstance(v, ast.Call) and not v.keywords and len(v.args) == 3
+                        and isinstance(v.func, ast.Attribute) and v.func.attr == "convert"
+                        and isinstance(v.func.value, ast.Name) and v.func.value.id == "units"
+                        and isinstance(v.args[0], ast.Attribute) and isinstance(v.args[0].value, ast.Name)
+                        and v.args[0].value.id == "units" and _is_self_attr(v.args[1], "output_units")):
+                    self.convert = (v.args[0].attr, self.expr(v.args[2]))
+                else:
+                    self.returned = self.expr(v)
+            elif (isinstance(st, ast.Try) and not in_try and not st.orelse and not st.finalbody
+                  and len(st.handlers) == 1 and len(body) == 1):
+                h = st.handlers[0]
+                if not (isinstance(h.type, ast.Name) and h.type.id == "ZeroDivisionError" and len(h.body) == 1
+                        and isinstance(h.body[0], ast.Return) and h.body[0].value is not None
+                        and _lit(h.body[0].value) is not None):
+                    raise Unrecognised("handler is not `except ZeroDivisionError: return <number>`")
+                self.except_value = _lit(h.body[0].value)
+                self.stmts(st.body, in_try=True)
+            else:
+                raise Unrecognised("statement %s" % ast.dump(st)[:120])
+
+
+def _method(tree, cls, name):
+    import ast
+    for c in tree.body:
+        if isinstance(c, ast.ClassDef) and c.name == cls:
+            found = [f for f in c.body if isinstance(f, ast.FunctionDef) and f.name == name]
+            if len(found) == 1:
+                return found[0]
+    raise Unrecognised("%s.%s not found (or defined twice)" % (cls, name))
+
+
+def _module_consts(tree):
+    """NAME = <arithmetic on numeric literals> at module level, assigned exactly once"""
+    import ast
+    out, seen = {}, {}
+    for st in ast.walk(tree):
+        for t in getattr(st, "targets", []) if isinstance(st, ast.Assign) else []:
+            for n in ast.walk(t):
+                if isinstance(n, ast.Name):
+                    seen[n.id] = seen.get(n.id, 0) + 1
+        if isinstance(st, (ast.AugAssign, ast.AnnAssign, ast.Global, ast.Nonlocal)):
+            for n in ast.walk(st):
+                if isinstance(n, ast.Name):
+                    seen[n.id] = seen.get(n.id, 0) + 2
+            for n in getattr(st, "names", []):
+                seen[n] = seen.get(n, 0) + 2
+    for st in tree.body:
+        if isinstance(st, ast.Assign) and len(st.targets) == 1 and isinstance(st.targets[0], ast.Name):
+            name = st.targets[0].id
+            if seen.get(name) != 1:
+                continue
+            try:
+                v = MethodEval(None, consts=out).expr(st.value)
+            except Unrecognised:
+                continue
+            if v.as_const() is not None:
+                out[name] = v
+    return out
+
+
+def _sonar(tree, cls, reading_method):
+    f = _method(tree, cls, "get")
+    if [a.arg for a in f.args.args] != ["self"] or f.decorator_list:
+        raise Unrecognised("%s.get signature" % cls)
+    ev = MethodEval(reading_method, consts=_module_consts(tree))
+    ev.stmts(f.body)
+    if ev.convert is None or ev.floor is not None or ev.stored:
+        raise Unrecognised("%s.get is not `return units.convert(units.<u>, self.output_units, <reading * k>)`" % cls)
+    unit, val = ev.convert
+    if unit not in NAMES:
+        raise Unrecognised("%s.get converts from unknown unit %s" % (cls, unit))
+    L = val.laurent()
+    if set(L) != {_mono(R=1)}:
+        raise Unrecognised("%s.get: value is not a multiple of the reading" % cls)
+    return NAMES.index(unit), 1 / L[_mono(R=1)]
+
+
+def extract_sensor_consts(repo):
+    """-> dict of exact constants; raises Unrecognised"""
+    import ast
+    d = os.path.join(repo, "robotpy_ext", "common_drivers")
+    out = {}
+    tree = ast.parse(open(os.path.join(d, "xl_max_sonar_ez.py")).read())
+    out["pw_unit"], out["pw_div"] = _sonar(tree, "MaxSonarEZPulseWidth", "getPeriod")
+    out["an_unit"], out["an_div"] = _sonar(tree, "MaxSonarEZAnalog", "getVoltage")
+    tree = ast.parse(open(os.path.join(d, "pressure_sensors.py")).read())
+    # --- pressure property
+    f = _method(tree, "REVAnalogPressureSensor", "pressure")
+    decos = [x.id for x in f.decorator_list if isinstance(x, ast.Name)]
+    if decos != ["property"] or len(f.decorator_list) != 1 or [a.arg for a in f.args.args] != ["self"]:
+        raise Unrecognised("pressure is not a plain property")
+    ev = MethodEval("getAverageVoltage", consts=_module_consts(tree))
+    ev.stmts(f.body)
+    if ev.returned is None or ev.floor is None or ev.except_value is None or ev.supply_attr is None or ev.stored:
+        raise Unrecognised("pressure: need try/except ZeroDivisionError, a floored reading and the supply getattr")
+    L = ev.returned.laurent()
+    kM, k1 = _mono(M=1, S=-1), _mono()
+    if not set(L) <= {kM, k1} or kM not in L:
+        raise Unrecognised("pressure: value is not scale * (floored reading / supply) - offset")
+    out["scale"], out["offset"] = L[kM], -L.get(k1, Fraction(0))
+    out["floor"], out["zero"] = ev.floor, ev.except_value
+    vn_attr = ev.supply_attr[0]
+    # --- calibrate
+    f = _method(tree, "REVAnalogPressureSensor", "calibrate")
+    args = [a.arg for a in f.args.args]
+    if len(args) != 2 or args[0] != "self" or f.decorator_list or f.args.defaults:
+        raise Unrecognised("calibrate signature")
+    ev = MethodEval("getAverageVoltage", params={args[1]: "P"}, consts=_module_consts(tree))
+    ev.stmts(f.body)
+    if ev.returned is not None or ev.floor is None or set(ev.stored) != {vn_attr} or ev.except_value is not None:
+        raise Unrecognised("calibrate: need a floored reading and exactly the assignment self.%s = ..." % vn_attr)
+    inv = ev.stored[vn_attr].inverse()
+    if inv is None:
+        raise Unrecognised("calibrate stores 0")
+    L = inv.laurent()                                    # 1 / Vn
+    kP, k0 = _mono(M=-1, P=1), _mono(M=-1)
+    if not set(L) <= {kP, k0}:
+        raise Unrecognised("calibrate: Vn is not floored reading / (slope * p + offset)")
+    out["cal_floor"], out["cal_slope"], out["cal_off"] = ev.floor, L.get(kP, Fraction(0)), L.get(k0, Fraction(0))
+    return out
+
+
+def gen_sensors_text(k):
+    return (HEADER + "Definition gen_consts : sconsts :=\n"
+            "  {| c_pw_unit := %s; c_pw_div := %s; c_an_unit := %s; c_an_div := %s;\n"
+            "     c_scale := %s; c_offset := %s; c_floor := %s; c_zero := %s;\n"
+            "     c_cal_floor := %s; c_cal_slope := %s; c_cal_off := %s |}.\n" %
+            (coq_nat(k["pw_unit"]), coq_Q(k["pw_div"]), coq_nat(k["an_unit"]), coq_Q(k["an_div"]),
+             coq_Q(k["scale"]), coq_Q(k["offset"]), coq_Q(k["floor"]), coq_Q(k["zero"]),
+             coq_Q(k["cal_floor"]), coq_Q(k["cal_slope"]), coq_Q(k["cal_off"])))
+
+
+GEN_C18S = """From Coq Require Import QArith List Bool.
+From RV Require Import Units.Model Units.Proofs Units.Check Properties.C18.
+From W Require Import Gen_units Gen_C18 Gen_sensors.
+Lemma gen_consts_ok : consts_ok gen_consts = true.
+Proof. vm_compute. reflexivity. Qed.
+Definition impl_sonar_scale := C18_sonar_scale gen_table gen_units_ok gen_consts gen_consts_ok.
+Definition impl_sonar_native := C18_sonar_native gen_table gen_units_ok gen_consts gen_consts_ok.
+Definition impl_pressure_formula := C18_pressure_formula gen_consts gen_consts_ok.
+Definition impl_pressure_below_floor := C18_pressure_below_floor gen_consts gen_consts_ok.
+Definition impl_pressure_total := C18_pressure_total gen_consts gen_consts_ok.
+Definition impl_calibrated := C18_calibrated gen_consts gen_consts_ok.
+Definition impl_calibrated_general := C18_calibrated_general gen_consts gen_consts_ok.
+Definition impl_floor_positive := C18_floor_positive gen_consts gen_consts_ok.
+Definition impl_sensors := (impl_sonar_scale, impl_sonar_native, impl_pressure_formula, impl_pressure_below_floor,
+  impl_pressure_total, impl_calibrated, impl_calibrated_general, impl_floor_positive).
+Print Assumptions impl_sensors.
 """
 
 
@@ -841,6 +1192,33 @@ def run(ctx):
                        rc == 0 and "Closed under the global context" in out, out)
         ctx.coverage["gen_table"] = [[p, str(kt), str(kf)] for p, kt, kf in table]
 
+    # ---- regenerated sensor constants (ast over the two source files) ----
+    consts_name = "doc_consts"                 # what the correspondence uses if the source is not readable
+    try:
+        for mod_, fn_ in ((im.sonar, "xl_max_sonar_ez.py"), (im.pressure, "pressure_sensors.py")):
+            want = os.path.realpath(os.path.join(common.REPO, "robotpy_ext", "common_drivers", fn_))
+            if os.path.realpath(mod_.__file__) != want:
+                raise Unrecognised("imported %s, not %s" % (mod_.__file__, want))
+        consts = extract_sensor_consts(common.REPO)
+        ctx.obligation("regen:sensor constants readable from the source (recognised shape)", True)
+    except (Unrecognised, SyntaxError, OSError) as e:
+        consts = None
+        ctx.obligation("regen:sensor constants readable from the source (recognised shape)", False,
+                       "%s: %s" % (type(e).__name__, e))
+    if consts is not None:
+        ctx.coverage["gen_consts"] = {k: str(v) for k, v in consts.items()}
+        rc, out = ctx.coq_file("Gen_sensors", gen_sensors_text(consts))
+        ctx.obligation("regen:Gen_sensors.v compiles", rc == 0, out)
+        if rc == 0:
+            consts_name = "gen_consts"
+            if gen_ok:
+                rc, out = ctx.coq_file("Gen_C18s", GEN_C18S)
+                ctx.obligation("regen:consts_ok gen_consts re-proved (0.000147 s/inch, 0.0049 V/cm, 250, 25, floor "
+                               "0.00001 V > 0, 0.004, 0.1) + instantiated sonar/pressure theorems",
+                               rc == 0 and "Closed under the global context" in out, out)
+            else:
+                ctx.obligation("regen:consts_ok gen_consts (skipped: no regenerated unit table)", False, "")
+
     # ---- observations of the implementation ----------------------------
     n_conv = 100000 if thorough else 5000
     n_tri = n_conv // 2
@@ -932,8 +1310,8 @@ def run(ctx):
     families = [
         ("conv", conv, "conv_case", "conv_ok gen_links", conv_txt, True),
         ("triple", tri, "triple_case", "triple_ok gen_links", tri_txt, True),
-        ("sonar", sonar, "sonar_case", "sonar_ok gen_links", sonar_txt, True),
-        ("pressure", press, "pressure_case", "pressure_ok", press_txt, False),
+        ("sonar", sonar, "sonar_case", "sonar_ok %s gen_links" % consts_name, sonar_txt, True),
+        ("pressure", press, "pressure_case", "pressure_ok %s" % consts_name, press_txt, False),
         ("forest", forest, "forest_case", "forest_ok", forest_txt, False),
     ]
     items, index = [], {}
@@ -944,6 +1322,7 @@ def run(ctx):
         for k, shd in enumerate(shards(cases, CASES_PER_FILE)):
             name = "cases_%s_%d" % (fam, k)
             text = (HEADER + ("From W Require Import Gen_units.\n" if needs_gen else "") +
+                    ("From W Require Import Gen_sensors.\n" if consts_name == "gen_consts" and fam in ("sonar", "pressure") else "") +
                     "Definition cases : list %s := %s.\n" % (ty, coq_list([txt(c) for c in shd])) +
                     "Eval vm_compute in (bad (%s) cases).\n" % okf)
             items.append((name, text))
